@@ -1001,16 +1001,28 @@ class Any(Reduction):
     _defaults = {"skipna": True, "split_every": False}
     reduction_chunk = M.any
 
+    @functools.cached_property
+    def _meta(self):
+        # skipna has no influence on the metadata, but with skipna=False pandas
+        # raises for the NA that meta_nonempty puts into nullable columns
+        meta = self.chunk(meta_nonempty(self.frame._meta), skipna=True)
+        meta = self.combine([meta], skipna=True)
+        return make_meta(self.aggregate([meta], skipna=True))
+
     @classmethod
     def _partial(cls, df, **kwargs):
+        if is_dataframe_like(df) and not kwargs.get("skipna", True):
+            # Column by column: on a frame pandas raises when the result of a
+            # nullable column is NA, which a partial result may be although
+            # the result is not
+            return df.apply(cls._partial, **kwargs)
         out = cls.reduction_chunk(df, **kwargs)
         if is_series_like(out):
             return out.to_frame().T
         # The partial result of a Series is kept in a Series: with skipna=False
         # it can be NA, which needs the nullable dtype that a list of scalars loses
-        return meta_series_constructor(df)(
-            [out], dtype="boolean" if out is pd.NA else bool
-        )
+        nullable = out is pd.NA or getattr(df.dtype, "na_value", None) is pd.NA
+        return meta_series_constructor(df)([out], dtype="boolean" if nullable else bool)
 
     @classmethod
     def chunk(cls, df, **kwargs):
